@@ -85,13 +85,25 @@ def default_interferer():
     return B
 
 
-def sweep(make_fn, label, prefix, max_events=4000):
+def cold_reset():
+    """fresh projection singletons: every trial starts with cold caches."""
+    import a5.core.cell as cm
+    import a5.projections.dodecahedron as dd
+    cm._dodecahedron = dd.DodecahedronProjection()
+
+
+def sweep(make_fn, label, prefix, max_events=4000, reset=None, same_call_interferer=None):
     """run A sequentially, then once per preemption point with B interleaved there; returns the first
-    event index at which the result differs (or None)."""
-    B = default_interferer()
+    event index at which the result differs (or None).  With `reset`, every trial starts from cold caches;
+    with `same_call_interferer`, B is the same call as A (two threads asking for the same thing)."""
+    B = default_interferer() if same_call_interferer is None else (lambda: same_call_interferer()())
+    if reset:
+        reset()
     seq, n = run(make_fn(), 0, B, prefix)
     step = 1 if n <= max_events else n // max_events + 1
     for k in range(1, n + 1, step):
+        if reset:
+            reset()
         r, _ = run(make_fn(), k, B, prefix)
         if not _eq(r, seq):
             return k, n, seq, r
